@@ -75,9 +75,8 @@ Definition remove_unloaded_inputs (c : circuit) (qs : gset string) : circuit :=
 Definition lookup0 (m : iomap) (k : string) : res string :=
   match m !! k with Some (x :: _) => Ok x | Some [] => Raise IndexError | None => Raise KeyError end.
 
-(* ign: normalised ignore_pins list; bbs: `c.blackboxes` in dict order (instance names) *)
-Definition sequential_unroll (C : Circuit) (n : nat) (d q : string) (ign : list string)
-    (add_flop_outputs : bool) (iv : init_vals) (remove_unloaded : bool) (prefix : string) : res (Circuit * iomap) :=
+(* the stripped circuit that is unrolled, and its state_io (ign: normalised ignore_pins list) *)
+Definition seq_stripped (C : Circuit) (d q : string) (ign : list string) (remove_unloaded : bool) : res (Circuit * list (string * string)) :=
   rbind (strip_blackboxes C ign) (λ CS,
   match map_to_list (c_bbs C) with
   | [] => Raise KeyError                                   (* set().pop() *)
@@ -90,8 +89,15 @@ Definition sequential_unroll (C : Circuit) (n : nat) (d q : string) (ign : list 
       if negb (bool_decide (q ∈ bb_out bb)) then Raise ValueError else
       let g2 := remove_g g1 (p ← elements (bb_out bb ∖ {[q]}); (λ b, pre b p) <$> insts) in
       let g3 := if remove_unloaded then remove_unloaded_inputs g2 (list_to_set ((λ b, pre b q) <$> insts)) else g2 in
-      let sio := (λ b, (pre b d, pre b q)) <$> insts in
-      rbind (unroll (with_g CS g3) n sio prefix) (λ r,
+      Ok (with_g CS g3, (λ b, (pre b d, pre b q)) <$> insts)
+  end).
+
+Definition sequential_unroll (C : Circuit) (n : nat) (d q : string) (ign : list string)
+    (add_flop_outputs : bool) (iv : init_vals) (remove_unloaded : bool) (prefix : string) : res (Circuit * iomap) :=
+  rbind (seq_stripped C d q ign remove_unloaded) (λ cs_sio,
+  let insts := elements (dom (c_bbs C)) in
+  (
+      rbind (unroll cs_sio.1 n cs_sio.2 prefix) (λ r,
       let '(U, m) := r in
       (* uc.set_output(io_map[state_output], add_flop_outputs) *)
       match foldl (λ st b, match st with
@@ -111,7 +117,16 @@ Definition sequential_unroll (C : Circuit) (n : nat) (d q : string) (ign : list 
           | (_, Fail e) => Raise e
           end)
       end)
-  end).
+  )).
+
+(* the result of sequential_unroll differs from the plain unrolling only by output marks and by step-0 state inputs
+   that became constants: U is the plain unrolling, U' the result *)
+Definition weaker (U U' : circuit) : Prop :=
+  ∀ x j, U !! x = Some j → ∃ j', U' !! x = Some j' ∧ n_fi j' = n_fi j ∧ (n_ty j' = n_ty j ∨ n_ty j = Input).
+Definition weakerb (U U' : circuit) : bool :=
+  forallb (λ p, match U' !! p.1 with
+                | Some j' => bool_decide (n_fi j' = n_fi p.2) && (bool_decide (n_ty j' = n_ty p.2) || bool_decide (n_ty p.2 = Input))
+                | None => false end) (map_to_list U).
 
 (* ---- the sequential machine: iterated evaluation ---- *)
 (* input assignment of step t: state input v (paired with state output k) carries k of the previous step,
